@@ -98,3 +98,34 @@ rewrite_generic_visit = Contract(
 )
 
 CONTRACTS = [conform_filename, emit_file, rewrite_generic_visit]
+
+# ------------------------------------------------------------------------------------------- sync_properties
+_SP_OPAQUE = {
+    "path.realpath": {"ret": "str"}, "path.expanduser": {"ret": "str"}, "open": {"ret": ("obj", None)},
+    "ast_parse": {"ret": ("obj", "ast.Module")}, "sync_property": {"ret": ("obj", "ast.Module")}, "emit.file": {"ret": "none", "effect": True},
+}
+
+
+def _sp_case(n):
+    return Case("pairs=%d" % n, {"input_eval": "bool", "input_filename": "str", "input_params": ("list", ["str"] * n), "output_filename": "str",
+                                 "output_params": ("list", ["str"] * n), "output_param_wrap": None})
+
+
+sync_properties = Contract(
+    "doctrans.sync_properties:sync_properties",
+    properties=["C14", "C20"],
+    note="1..3 input/output pairs; sync_property, the parser and emit.file are opaque and logged",
+    cases=[_sp_case(1), _sp_case(2), _sp_case(3)],
+    ensures=[
+        Clause("SP-one-write", "log_effects == ('emit.file',) and log_order[-1] == 'emit.file'", note="C14.D1: exactly one write, after every pair has been applied"),
+        Clause("SP-target", "log_emit_file_args[0][1] == output_filename and log_emit_file_kwargs[0]['mode'] == 'wt'", note="the write goes to the output file"),
+        Clause("SP-reads-only", "all(a[1] == 'rt' for a in log_open_args)", note="both files are opened for reading only (the input file is never written)"),
+        Clause("SP-every-pair", "log_sync_property_n == len(input_params)", note="every input/output pair is applied"),
+        Clause("SP-chained", "log_emit_file_args[0][0] is log_sync_property_results[-1]", note="what is written is the result of the last replacement"),
+    ],
+    raises={"AssertionError": "False"},
+    canaries=["log_sync_property_n == 1"],
+)
+sync_properties.opaque = _SP_OPAQUE
+
+CONTRACTS.append(sync_properties)
